@@ -178,7 +178,7 @@ def apply_library(kind, params, F):
     return g.VariableCompression(F, compression_graph(*params), "xor" if kind == "xorcomp" else "maj")
 
 
-GRAPH_REPS = ("cnfgen", "cnfgen-repeated", "nx", "nx-multi", "user-class")
+GRAPH_REPS = ("cnfgen", "cnfgen-repeated", "nx", "nx-multi", "user-class", "nx-directed")
 
 
 def compression_graph(nbrs, R, rep="cnfgen"):
@@ -194,6 +194,19 @@ def compression_graph(nbrs, R, rep="cnfgen"):
             B.add_edge(u, v)
         return B
     import networkx
+    if rep == "nx-directed":
+        # a networkx DiGraph: every edge is one arc, some written from the right side to the left one
+        G = networkx.DiGraph()
+        for u in range(1, len(nbrs) + 1):
+            G.add_node("x%d" % u, bipartite=0)
+        for v in range(1, R + 1):
+            G.add_node("y%d" % v, bipartite=1)
+        for k, (u, v) in enumerate(edges):
+            if k % 2:
+                G.add_edge("x%d" % u, "y%d" % v)
+            else:
+                G.add_edge("y%d" % v, "x%d" % u)
+        return G
     G = networkx.Graph() if rep == "nx" else networkx.MultiGraph()
     for u in range(1, len(nbrs) + 1):
         G.add_node("x%d" % u, bipartite=0)
